@@ -254,9 +254,10 @@ class FakeEcos:
         n = len(cost)
         m = G.shape[0]
         p = 0 if A is None else A.shape[0]
-        return {"x": arr([self.c.fresh_real(f"sx{i}_") for i in range(n)]), "y": arr([self.c.fresh_real(f"sy{i}_") for i in range(p)]),
-                "z": arr([self.c.fresh_real(f"sz{i}_") for i in range(m)]),
-                "info": {"exitFlag": self.flag, "pcost": self.c.fresh_real("pcost"), "infostring": "rec", "timing": {"runtime": 0.0}}}
+        self.last = {"x": arr([self.c.fresh_real(f"sx{i}_") for i in range(n)]), "y": arr([self.c.fresh_real(f"sy{i}_") for i in range(p)]),
+                     "z": arr([self.c.fresh_real(f"sz{i}_") for i in range(m)]),
+                     "info": {"exitFlag": self.flag, "pcost": self.c.fresh_real("pcost"), "infostring": "rec", "timing": {"runtime": 0.0}}}
+        return self.last
 
 
 def ecos_cases():
